@@ -25,6 +25,9 @@ pub enum KeySel {
     Any(u32),
     /// a key that is absent (not necessarily never used)
     Absent(u32),
+    /// the i-th element the move cursor will yield next (i.e. within or just beyond the group the
+    /// cursor is in); falls back to InOld
+    NextMoved(u8),
 }
 
 #[derive(Clone, Copy, Debug, PartialEq, Eq, Serialize, Deserialize)]
@@ -199,6 +202,9 @@ pub enum Op {
     /// removes every element that is still in the old table, one by one
     /// (how: 0 remove, 1 remove_entry, 2 occupied-entry remove, 3 raw-entry remove, 4 replace_entry_with(None))
     RemoveOld { s: u8, how: u8, keep: u8 },
+    /// mid-resize: removes main-table elements until len + L + ceil(L/R) sits exactly on a
+    /// table-capacity boundary, then shrink_to_fit (the tightest table the headroom rule allows)
+    TightShrink { s: u8 },
     /// get() of every key either map holds, in both maps (C14)
     CrossGet,
     // feature checks that need a state
@@ -267,6 +273,7 @@ impl Op {
             Op::CrossGet => "cross_get",
             Op::RemoveAll { .. } => "remove_all",
             Op::RemoveOld { .. } => "remove_old",
+            Op::TightShrink { .. } => "tight_shrink",
             Op::ParCheck { .. } => "par_check",
             Op::SerdeCheck { .. } => "serde_check",
             Op::SetPoint { which, .. } => match which % 9 {
